@@ -191,7 +191,7 @@ def run_streams(ctx, exe, streams, tag):
 
 OBS = dict(fec_frames=0, fec_err=0, plc_err=0, worst_stream_fec_ratio_x1000=None, max_over_level_cdB=-100000, n_over=0,
            max_after_400ms_cdB=-100000, n_after_400ms=0, max_after_1s_cdB=-100000, max_after_2s_cdB=-100000, max_tail_err_rel_cdB=-100000, n_tail=0, drift=0,
-           strong_fec_streams=0, strong_fec_frames=0, worst_strong_fec_ratio_x1000=None, isolated_loss_worst_packet_rel_cdB=-100000, n_isolated_loss_tails=0, clean_speech_max_after_400ms_cdB=-100000, clean_speech_max_after_1s_cdB=-100000, n_clean_speech_after_400ms=0)
+           strong_fec_streams=0, strong_fec_frames=0, worst_strong_fec_ratio_x1000=None, isolated_loss_worst_packet_rel_cdB=-100000, n_isolated_loss_tails=0, clean_speech_max_re_level_cdB=-100000, clean_speech_max_re_comfort_noise_ref_cdB=-100000, n_clean_speech_after_400ms=0, n_clean_speech_comfort_noise_governed=0)
 
 
 def read_prints(r, trace=None):
@@ -210,7 +210,7 @@ def read_prints(r, trace=None):
         if not p.startswith('"OBS <<'):
             continue
         v = [int(t) for t in p[7:-3].split(", ")]
-        x, nf, sf, sp, o1, n1, o2, n2, o4, n4, o2b, o2c, o5, o5b, n5, nf3, sf3, sp3, o6, n6 = v
+        x, nf, sf, sp, o1, n1, o2, n2, o4, n4, o2b, o2c, o5, o5b, n5, nf3, sf3, sp3, o6, n6, n5b = v
         if n6:
             OBS["isolated_loss_worst_packet_rel_cdB"] = max(OBS["isolated_loss_worst_packet_rel_cdB"], o6); OBS["n_isolated_loss_tails"] += n6
         OBS["max_after_1s_cdB"] = max(OBS["max_after_1s_cdB"], o2b); OBS["max_after_2s_cdB"] = max(OBS["max_after_2s_cdB"], o2c)
@@ -225,7 +225,9 @@ def read_prints(r, trace=None):
             if OBS["worst_strong_fec_ratio_x1000"] is None or ratio > OBS["worst_strong_fec_ratio_x1000"]:
                 OBS["worst_strong_fec_ratio_x1000"] = ratio
         if n5:
-            OBS["clean_speech_max_after_400ms_cdB"] = max(OBS["clean_speech_max_after_400ms_cdB"], o5); OBS["clean_speech_max_after_1s_cdB"] = max(OBS["clean_speech_max_after_1s_cdB"], o5b); OBS["n_clean_speech_after_400ms"] += n5
+            OBS["clean_speech_max_re_level_cdB"] = max(OBS["clean_speech_max_re_level_cdB"], o5); OBS["n_clean_speech_after_400ms"] += n5
+        if n5b:
+            OBS["clean_speech_max_re_comfort_noise_ref_cdB"] = max(OBS["clean_speech_max_re_comfort_noise_ref_cdB"], o5b); OBS["n_clean_speech_comfort_noise_governed"] += n5b
         if n1:
             OBS["max_over_level_cdB"] = max(OBS["max_over_level_cdB"], o1); OBS["n_over"] += n1
         if n2:
